@@ -84,6 +84,21 @@ void Uci::loop()
             sync_cout << "Unknown command" << sync_endl;
         }
     }
+
+    finish_search();
+}
+
+Uci::~Uci()
+{
+    finish_search();
+}
+
+void Uci::finish_search()
+{
+    // the search thread uses members of this object (position, book, search):
+    // it has to be gone before they are replaced or destroyed
+    if (search) search->stop();
+    if (search_thread.joinable()) search_thread.join();
 }
 
 bool Uci::uci_command(std::istringstream& /* istream */)
@@ -296,10 +311,11 @@ bool Uci::go_command(std::istringstream& istream)
         }
     }
 
-    search = std::make_shared<Search>(position, limits, scorer, ttable);
+    // the previous search thread still works on this object
+    finish_search();
 
-    std::thread search_thread(start_searching, this);
-    search_thread.detach();
+    search = std::make_shared<Search>(position, limits, scorer, ttable);
+    search_thread = std::thread(start_searching, this);
 
     return true;
 }
